@@ -167,7 +167,7 @@ def run(F, R, tier):
                     jump_kinds.add((var, ev[0]))
     for var, kind in sorted(jump_kinds):
         E = e5run.exit_offsets(res, (kind,))
-        deep = {o: w for o, w in E["block"].items() if o > 0}
+        deep = {o: w for (o, corr), w in E["block"].items() if o > 0}
         w = deep.get(min(deep)) if deep else None
         R.ob("loop-exit-depth", "%s: the jump is emitted at the height of the loop's body statements" % var, not deep,
              "a %s can be compiled while operands of an enclosing expression are on the stack, and its bare Jump leaves them there: %s" % (var.lower(), w) if deep else
